@@ -210,6 +210,9 @@ class QueueWorld:
             else:
                 self.ev("c_nowait", c, type(exc).__name__)
                 self.sit["cancelled_waiting"] += 1
+                if not isinstance(exc, CancelledError):
+                    # nobody cancelled anything: the wait for an item itself failed (and may have swallowed the item)
+                    self.violate("C20.handed", f"consumer {c}: waiting for an item ended with {type(exc).__name__}: {exc} instead of an item")
                 if made != 0:
                     self.violate("C20.no_mark_waiting", f"consumer {c} never got an item but made {made} task_done() calls")
             self.cstate[c] = "between"
@@ -297,6 +300,9 @@ class QueueWorld:
                 self.violate("C20.join_released", "idle: join() still pending although every item put had been processed at some moment since the call")
             if not j["done"]:
                 self.sit["join_pending_at_idle"] += 1
+                if self.q.empty() and not any(st == "inside" for st in self.cstate.values()) and not getattr(self, "nested_open", 0):
+                    # nothing left in the queue and no block open, yet join() waits: an item was taken and never marked
+                    self.violate("C20.join_released", "idle: join() still pending although the queue is empty and no block is open")
 
     def final(self):
         if self.calls != self.exits:
